@@ -81,7 +81,7 @@ class Positive(Number):
     """
 
     def __set__(self, instance, value):
-        if value <= 0:
+        if isinstance(value, (float, int, Decimal)) and value <= 0:
             raise ValueError(f"{self._name}: Got {value}; Expected a positive number")
         super().__set__(instance, value)
 
@@ -92,7 +92,7 @@ class NonPositive(Number):
     """
 
     def __set__(self, instance, value):
-        if value > 0:
+        if isinstance(value, (float, int, Decimal)) and value > 0:
             raise ValueError(
                 f"{self._name}: Got {value}; Expected a negative number or 0"
             )
@@ -105,7 +105,7 @@ class Negative(Number):
     """
 
     def __set__(self, instance, value):
-        if value >= 0:
+        if isinstance(value, (float, int, Decimal)) and value >= 0:
             raise ValueError(f"{self._name}: Got {value}; Expected a negative number")
         super().__set__(instance, value)
 
@@ -116,7 +116,7 @@ class NonNegative(Number):
     """
 
     def __set__(self, instance, value):
-        if value < 0:
+        if isinstance(value, (float, int, Decimal)) and value < 0:
             raise ValueError(
                 f"{self._name}: Got {value}; Expected a positive number or 0"
             )
